@@ -17,7 +17,11 @@ RULE = (
     "dedup_batch: batches built with encode_batch from mixed-size positions, rows duplicated / permuted at random, "
     "padding content and padding width varied, uint8 and int64 tokens, 1-3 target columns of dyadic float32; "
     "order/tokens/mask compared exactly with Batch.dedupBatch, targets exactly when every count is a power of two and "
-    "to 1e-6 relative otherwise. One evaluation = one encode_games call or one dedup_batch call. Non-trivial = a batch "
+    "to 1e-6 relative otherwise. Large inputs on every run: dedup_batch on batches of 300 .. 16k rows (thorough .. 50k) built from "
+    "3-300 encoded positions by an index list with skewed multiplicities spread unevenly along the batch (zipf, segments with their "
+    "own distributions, a key recurring at irregular intervals, early-rare/late-frequent keys), per-occurrence dyadic targets; and "
+    "encode_games on one self-play step of 100-130 games (thorough: also 180-240 games, up to 70 plies). "
+    "One evaluation = one encode_games call or one dedup_batch call. Non-trivial = a batch "
     "with at least one repeated key, or a game list with >= 2 games / a repeated position; distinct by serialised input."
 )
 TRUSTED = [
@@ -325,6 +329,158 @@ def gen_dedup_batch(ctx):
     return batch, dtype, shapes, style
 
 
+# ------------------------------------------------------------------ large batches (compact form)
+
+BIG_SHAPES = [("moves", (3,)), ("values", ()), ("results", ())]
+
+
+def position_pool(ctx):
+    """a few hundred positions (real games on sizes 3..6 and constructed boards), made once per run"""
+    pool = getattr(ctx, "_c12_pool", None)
+    if pool is None:
+        rng = ctx.rng
+        pool = []
+        for _ in range(14 if ctx.thorough else 8):
+            size = rng.choice([3, 4, 5, 5, 6])
+            pool += real_game_positions(rng, size)
+        for _ in range(60):
+            pool.append(gen.constructed_position(rng, rng.choice([3, 4, 5, 6]), derive_reserves=False))
+        ctx._c12_pool = pool
+    return pool
+
+
+def skewed_indices(rng, nb, n):
+    """n occurrences of nb base rows: skewed multiplicities, spread unevenly along the batch
+    (segments with their own distributions, keys confined to a part of the batch, one key that
+    recurs at irregular intervals like the empty board of every game)"""
+    style = rng.choice(["zipf", "segments", "segments", "periodic", "late-burst"])
+    idx = []
+    if style == "zipf":
+        w = [1.0 / (r + 1) ** rng.choice([0.7, 1.0, 1.5]) for r in range(nb)]
+        idx = rng.choices(range(nb), w, k=n)
+    elif style in ("segments", "periodic"):
+        nseg = rng.choice([2, 3, 5, 8])
+        cuts = sorted(rng.randrange(1, n) for _ in range(nseg - 1)) if n > nseg else []
+        bounds = [0] + cuts + [n]
+        for a, b in zip(bounds, bounds[1:]):
+            live = rng.sample(range(nb), max(1, rng.randrange(1, nb + 1)))
+            w = [rng.random() ** 3 + 0.01 for _ in live]
+            idx += rng.choices(live, w, k=b - a)
+        if style == "periodic":
+            k, i = rng.randrange(nb), 0
+            while i < n:
+                idx[i] = k
+                i += rng.choice([1, 7, 30, 44, 60, 150, 400])
+    else:  # late-burst: rare at first, frequent at the end (and the other way round for another key)
+        w = [rng.random() + 0.05 for _ in range(nb)]
+        idx = rng.choices(range(nb), w, k=n)
+        a, b = rng.randrange(nb), rng.randrange(nb)
+        cut = rng.randrange(n // 2, n) if n > 2 else 0
+        for i in range(n):
+            if i >= cut and rng.random() < 0.5:
+                idx[i] = a
+            elif i < n - cut and rng.random() < 0.3:
+                idx[i] = b
+    return style, idx
+
+
+def gen_big_dedup(ctx, n):
+    """(base token rows, base mask rows, occurrences [(base index, target vector)])"""
+    from tak.model import encoding
+
+    rng = ctx.rng
+    pool = position_pool(ctx)
+    nb = rng.choice([3, 10, 40, 120, 300])
+    base = [rng.choice(pool) for _ in range(nb)]
+    enc, mask = encoding.encode_batch(base)
+    style, idx = skewed_indices(rng, nb, n)
+    cnt = sum(_prod(shp) for _, shp in BIG_SHAPES)
+    # dyadic targets k/32 in [-4, 4]: float32 sums over tens of thousands of rows stay exact
+    occ = [(i, [rng.randrange(-128, 129) / 32.0 for _ in range(cnt)]) for i in idx]
+    return enc, mask, occ, style
+
+
+def _prod(shp):
+    c = 1
+    for s in shp:
+        c *= s
+    return c
+
+
+def compact_batch(enc, mask, occ, shapes=None):
+    """the torch batch of a compact description"""
+    import torch
+
+    shapes = BIG_SHAPES if shapes is None else shapes
+    idx = torch.tensor([i for i, _ in occ], dtype=torch.long)
+    tg = torch.tensor([t for _, t in occ], dtype=torch.float32).reshape(len(occ), -1)
+    batch = {"positions": enc[idx], "mask": mask[idx]}
+    off = 0
+    for k, shp in shapes:
+        c = _prod(shp)
+        batch[k] = tg[:, off : off + c].reshape((len(occ),) + tuple(shp)).clone()
+        off += c
+    return batch
+
+
+def compact_text(base_rows, occ):
+    return "%d %s %d %s" % (len(base_rows), " ".join(base_rows), len(occ), " ".join("%d|%s" % (i, fracs(t)) for i, t in occ))
+
+
+def base_rows_of(enc, mask):
+    return ["%s %s" % (toks_str(enc[i].tolist()), mask_str(mask[i].tolist())) for i in range(enc.shape[0])]
+
+
+def tensors_of_base_rows(base_rows):
+    import torch
+
+    pos = [[int(x) for x in r.split(" ")[0].split(",")] for r in base_rows]
+    msk = [[c == "1" for c in r.split(" ")[1]] for r in base_rows]
+    return torch.tensor(pos, dtype=torch.uint8), torch.tensor(msk, dtype=torch.bool)
+
+
+def transcript_pool(ctx):
+    """real games kept with their candidate lists, to build many-game lists cheaply"""
+    pool = getattr(ctx, "_c12_games", None)
+    if pool is None:
+        rng = ctx.rng
+        pool = []
+        for _ in range(10 if ctx.thorough else 6):
+            size = rng.choice([4, 5, 5, 6])
+            import tak
+
+            game, _ = gen.play_random_game(rng, tak.Config(size=size), rng.choice(gen.POLICIES), max_plies=rng.choice([30, 50, 70] if ctx.thorough else [20, 30, 40]), keep_moves=True)
+            game = [p for p in game if in_vocab(p) and p.all_moves()]
+            if game:
+                pool.append([(p, candidates(rng, p)) for p in game])
+        ctx._c12_games = pool
+    return pool
+
+
+def gen_many_games(ctx, ngames):
+    """a self-play step: many games, each a prefix of a pooled real game with fresh search output
+    (so the opening positions recur in every game, later ones in some)"""
+    import tak
+    from tak import self_play
+
+    rng = ctx.rng
+    pool = transcript_pool(ctx)
+    logs = []
+    for _ in range(ngames):
+        g = rng.choice(pool)
+        n = rng.randrange(1, len(g) + 1) if rng.random() < 0.3 else len(g)
+        tr = self_play.Transcript()
+        for p, ms in g[:n]:
+            k = rng.randrange(1, len(ms) + 1)
+            tr.positions.append(p)
+            tr.moves.append(ms[:k])
+            tr.probs.append(dyadic_probs(rng, k))
+            tr.values.append(dyadic(rng))
+        tr.result = rng.choice([None, tak.Color.WHITE, tak.Color.BLACK])
+        logs.append(tr)
+    return logs
+
+
 # ------------------------------------------------------------------ running the implementation
 
 
@@ -376,8 +532,8 @@ def rows_close(impl_line, model_line, exact):
 
 
 def tie(ctx):
-    n_games = 700 if ctx.thorough else 150
-    n_dedup = 5000 if ctx.thorough else 700
+    n_games = 700 if ctx.thorough else 100
+    n_dedup = 5000 if ctx.thorough else 450
     divs = []
 
     # --- encode_games
@@ -457,7 +613,68 @@ def tie(ctx):
             )
     if meta:
         ctx.sample({"dedup_rows": meta[0][0][:6], "impl": impl[0][:300]})
+
+    divs += tie_large(ctx)
     return divs
+
+
+def size_plan(ctx):
+    """row counts of the large dedup batches: a few in every decade up to the tier's maximum"""
+    rng = ctx.rng
+    if ctx.thorough:
+        bands = [(300, 1500, 6), (1500, 5000, 6), (5000, 12000, 5), (12000, 30000, 4), (30000, 50000, 2)]
+    else:
+        bands = [(300, 1500, 3), (1500, 5000, 3), (5000, 9000, 2), (9000, 16000, 2)]
+    return [rng.randrange(lo, hi) for lo, hi, k in bands for _ in range(k)]
+
+
+def tie_large(ctx):
+    import time
+
+    divs = []
+    # --- dedup_batch on large batches (compact form: base rows + occurrences)
+    t0 = time.time()
+    for n in size_plan(ctx):
+        enc, mask, occ, style = gen_big_dedup(ctx, n)
+        base_rows = base_rows_of(enc, mask)
+        text = compact_text(base_rows, occ)
+        io, _ = run_dedup(compact_batch(enc, mask, occ))
+        mo = driver.run_lines(["batch dedup-compact " + text])[0]
+        keys = driver.run_lines(["batch key " + r for r in base_rows])
+        counts = {}
+        for i, _t in occ:
+            counts[keys[i]] = counts.get(keys[i], 0) + 1
+        exact = all(c & (c - 1) == 0 for c in counts.values())
+        ctx.evaluated()
+        ctx.count("dedup-large:" + style)
+        ctx.count("dedup-large:rows-%s" % ("<1500" if n < 1500 else "<5000" if n < 5000 else "<12000" if n < 12000 else ">=12000"))
+        ctx.count("dedup-large:max-multiplicity-%s" % ("<10" if max(counts.values()) < 10 else "<100" if max(counts.values()) < 100 else "<1000" if max(counts.values()) < 1000 else ">=1000"))
+        ctx.count("dedup-large:rows-total", n)
+        ctx.nontrivial("ddl|%d|%s" % (n, text[:2000]))
+        if not rows_close(io, mo, exact):
+            divs.append(Divergence("corr.batches", {"kind": "dedup-compact", "base": base_rows, "occ": " ".join("%d|%s" % (i, fracs(t)) for i, t in occ), "shapes": [[k, list(sh)] for k, sh in BIG_SHAPES]}, io[:20000], mo[:20000]))
+    ctx.note("large dedup batches: %.1fs" % (time.time() - t0))
+
+    # --- encode_games on many games (a self-play step)
+    t0 = time.time()
+    for ngames in ([rng_pick(ctx, 100, 140), rng_pick(ctx, 180, 240)] if ctx.thorough else [rng_pick(ctx, 100, 130)]):
+        logs = gen_many_games(ctx, ngames)
+        text = "%d %s" % (len(logs), " ".join(transcript_str(t) for t in logs))
+        io = run_encode_games(logs)
+        mo = driver.run_lines(["batch encodegames max " + text])[0]
+        nrows = sum(len(t.positions) for t in logs)
+        ctx.evaluated()
+        ctx.count("encode_games-large:games", len(logs))
+        ctx.count("encode_games-large:rows", nrows)
+        ctx.nontrivial("egl|" + text[:4000])
+        if io != mo:
+            divs.append(Divergence("corr.batches", {"kind": "encodegames", "games": text}, io, mo))
+    ctx.note("many-game encode_games: %.1fs" % (time.time() - t0))
+    return divs
+
+
+def rng_pick(ctx, lo, hi):
+    return ctx.rng.randrange(lo, hi)
 
 
 # ------------------------------------------------------------------ search / replay
@@ -509,6 +726,108 @@ def shrink_dedup(rows, dtype, shapes, key):
                 changed = True
                 break
     return rows
+
+
+def parse_occ(text):
+    out = []
+    for o in text.split(" "):
+        i, g = o.split("|")
+        out.append((int(i), [float(Fraction(x)) for x in g.split(";")]))
+    return out
+
+
+def compact_case(base_rows, occ, shapes):
+    """run the implementation on a compact batch; failing C12 clauses by the driver"""
+    enc, mask = tensors_of_base_rows(base_rows)
+    io, _ = run_dedup(compact_batch(enc, mask, occ, [(k, tuple(sh)) for k, sh in shapes]))
+    if not io.startswith("ok "):
+        return io, ["dedup-crash"]
+    line = "batch check-dedup-compact %d/%d %s %s" % (TOL.numerator, TOL.denominator, compact_text(base_rows, occ), io[3:])
+    out = driver.run_lines([line])[0]
+    if out == "ok":
+        return io, []
+    return io, (out[5:].split(",") if out.startswith("fail ") else ["driver:" + out])
+
+
+def compact_differs(base_rows, occ, shapes):
+    """fast test used while shrinking: implementation output differs from the model's beyond TOL
+    (the model meets every clause — C12_dedup_checkers — and the clauses fix the output, so this is
+    the negation of the predicate; the shrunk input is confirmed with the predicate itself)"""
+    enc, mask = tensors_of_base_rows(base_rows)
+    io, _ = run_dedup(compact_batch(enc, mask, occ, [(k, tuple(sh)) for k, sh in shapes]))
+    mo = driver.run_lines(["batch dedup-compact " + compact_text(base_rows, occ)])[0]
+    return not rows_close(io, mo, False)
+
+
+def shrink_compact(ctx, base_rows, occ, shapes, key, budget_s=60.0):
+    """fewer rows (bisection on the prefix, then on the suffix), fewer distinct positions, one scalar
+    small-integer target, a bounded chunk removal, only the base rows still used — while the
+    implementation keeps failing; the result is confirmed with the driver's predicate for `key`"""
+    import time
+
+    t_end = time.time() + budget_s
+    orig = (base_rows, occ, shapes)
+
+    def fails(o, sh=None, base=None):
+        if not o or time.time() > t_end:
+            return False
+        try:
+            return compact_differs(base or base_rows, o, sh or shapes)
+        except Exception:
+            return False
+
+    lo, hi = 0, len(occ)  # invariant: occ[:hi] fails
+    while hi - lo > 1 and time.time() < t_end:
+        mid = (lo + hi) // 2
+        if fails(occ[:mid]):
+            hi = mid
+        else:
+            lo = mid
+    occ = occ[:hi]
+    lo, hi = 0, len(occ)  # invariant: occ[lo:] fails
+    while hi - lo > 1 and time.time() < t_end:
+        mid = (lo + hi) // 2
+        if fails(occ[mid:]):
+            lo = mid
+        else:
+            hi = mid
+    occ = occ[lo:]
+    # fewer distinct positions: fold the base indices onto the first m base rows
+    for m in (2, 3, 5, 10, 30, 100):
+        if m >= len(base_rows):
+            break
+        cand = [(i % m, t) for i, t in occ]
+        if fails(cand, base=base_rows[:m]):
+            base_rows, occ = base_rows[:m], cand
+            break
+    # a single scalar target, then small integers
+    one = [(i, t[:1]) for i, t in occ]
+    if len(occ[0][1]) > 1 and fails(one, [["values", []]]):
+        occ, shapes = one, [["values", []]]
+    small = [(i, [float((j * 7 + 3) % 5)] + [0.0] * (len(t) - 1)) for j, (i, t) in enumerate(occ)]
+    if fails(small):
+        occ = small
+    # bounded chunk removal (halves, quarters, eighths)
+    for div in (2, 4, 8):
+        chunk = max(1, len(occ) // div)
+        i = 0
+        while i < len(occ) and time.time() < t_end:
+            cand = occ[:i] + occ[i + chunk :]
+            if fails(cand):
+                occ = cand
+            else:
+                i += chunk
+    used = sorted({i for i, _ in occ})
+    remap = {b: a for a, b in enumerate(used)}
+    cand_base, cand_occ = [base_rows[b] for b in used], [(remap[i], t) for i, t in occ]
+    if compact_differs(cand_base, cand_occ, shapes):
+        base_rows, occ = cand_base, cand_occ
+    try:
+        if key in compact_case(base_rows, occ, shapes)[1]:
+            return base_rows, occ, shapes
+    except Exception:
+        pass
+    return orig
 
 
 def encodegames_case(text):
@@ -576,6 +895,10 @@ def search(ctx, divergences, broken):
         try:
             if inp["kind"] == "dedup":
                 keys = check_dedup(inp["rows"], d.impl)
+            elif inp["kind"] == "dedup-compact":
+                if any(v.replay.get("kind") == "dedup-compact" for v in vs):
+                    continue  # one large failing batch is evidence enough (each evaluation takes seconds)
+                keys = compact_case(inp["base"], parse_occ(inp["occ"]), inp["shapes"])[1]
             else:
                 keys = check_encodegames(inp["games"], d.impl)
         except Exception as e:
@@ -588,7 +911,21 @@ def search(ctx, divergences, broken):
             if key in seen:
                 continue
             seen.add(key)
-            if inp["kind"] == "dedup":
+            if inp["kind"] == "dedup-compact":
+                base, occ, shapes = inp["base"], parse_occ(inp["occ"]), inp["shapes"]
+                n0 = len(occ)
+                try:
+                    base, occ, shapes = shrink_compact(ctx, base, occ, shapes, key)
+                    io = compact_case(base, occ, shapes)[0]
+                except Exception:
+                    io = d.impl
+                rep = {"kind": "dedup-compact", "base": base, "occ": " ".join("%d|%s" % (i, fracs(t)) for i, t in occ), "shapes": shapes}
+                mult = {}
+                for i, _t in occ:
+                    mult[i] = mult.get(i, 0) + 1
+                what = "dedup_batch on a batch of %d rows (shrunk from %d; %d distinct base rows, multiplicities %s) returns [%s]: clause %s of C12 fails" % (
+                    len(occ), n0, len(base), sorted(mult.values(), reverse=True)[:6], io[:300], key)
+            elif inp["kind"] == "dedup":
                 rows = inp["rows"]
                 try:
                     rows = shrink_dedup(rows, inp["dtype"], inp["shapes"], key)
@@ -613,7 +950,12 @@ def search(ctx, divergences, broken):
 def replay(ctx, data):
     r = data.get("replay", data)
     vs = []
-    if r["kind"] == "dedup":
+    if r["kind"] == "dedup-compact":
+        occ = parse_occ(r["occ"])
+        io, keys = compact_case(r["base"], occ, r["shapes"])
+        for k in keys:
+            vs.append(Violation(k, "dedup_batch on a batch of %d rows (%d base rows) returns [%s]: clause %s fails" % (len(occ), len(r["base"]), io[:300], k), r))
+    elif r["kind"] == "dedup":
         io, keys = dedup_case(r["rows"], r["dtype"], r["shapes"])
         for k in keys:
             vs.append(Violation(k, "dedup_batch on rows %s returns [%s]: clause %s fails" % (r["rows"], io[:300], k), r))
